@@ -248,3 +248,19 @@ func tinyPure(f *ssa.Function) bool {
 	}
 	return true
 }
+
+
+// asUnits: in view mode, replace each function by its view and leave out the helpers folded into others.
+func (p *Program) asUnits(fns []*ssa.Function) []*ssa.Function {
+	if !p.useViews {
+		return fns
+	}
+	var out []*ssa.Function
+	for _, f := range fns {
+		if p.folded(f) {
+			continue
+		}
+		out = append(out, p.view(f))
+	}
+	return out
+}
